@@ -123,6 +123,19 @@ def run(ctx):
                                 assert st["iteration"] == last_it
                             except Exception as e:
                                 ctx.violation("blob-not-loadable", f"stored payload does not unpickle: {e!r}", rep)
+                                st = None
+                            # what an interrupted run leaves behind is a checkpoint the cadence dictates, and it describes COMPLETED
+                            # iterations only: as many temperatures as iterations, one stored population more (the initial one)
+                            if st is not None:
+                                its = [i for i, _ in spy["log"]]
+                                h_ = st["history"]
+                                off_cadence = [i for i in its if i % every != 0]
+                                if off_cadence or its != sorted(set(its)):
+                                    ctx.violation(f"fault-cadence:every={every}", f"before the fault at user-call {k} checkpoints were written at iterations {its}; the cadence is every {every}", rep)
+                                elif len(h_.beta) != st["iteration"] or (len(h_.sample_history) not in (0, st["iteration"] + 1)):
+                                    ctx.violation("fault-payload-not-a-completed-iteration",
+                                                  f"the checkpoint left by the fault claims iteration {st['iteration']} with {len(h_.beta)} temperatures and "
+                                                  f"{len(h_.sample_history)} stored populations", rep)
                     elif blob is not None:
                         ctx.violation("blob-without-callback", "file holds a checkpoint but no payload was emitted", rep)
             finally:
